@@ -288,8 +288,14 @@ type genCtx struct {
 // attribute names the cause of the failure of `oracle` on src.
 func attribute(src, oracle string, o checkOpts, g *genCtx) string {
 	fails := func(s string) bool {
-		for _, f := range check([]byte(s), o).raw {
-			if f.Oracle == oracle {
+		res := check([]byte(s), o)
+		if oracle != "valid-source-rejected" && !res.accepted {
+			return true // the neutralised text is not even accepted: that is no cure
+		}
+		for _, f := range res.raw {
+			// oracles of one kind count as the same failure: a text that stops parsing to the
+			// same description and starts being unparsable has not been cured
+			if f.Oracle != "" && kindOf[f.Oracle] == kindOf[oracle] {
 				return true
 			}
 		}
